@@ -447,9 +447,11 @@ claim("C22",
       "describe every resolution) is a rely/guarantee argument written in the evidence, NOT machine-checked; it is "
       "cross-checked by a BOUNDED native scenario (random schedules of 2-4 concurrently resolving steps with "
       "cancellations and a failing factory on the real classes: 400 quick / 20000 thorough), which is counted as "
-      "bounded, not proved. `_Resource.resolve` / `call` / `_resolve_dependencies` (signature inspection, calling "
-      "the user factory) are not verified against the resolution guarantee: it is assumed for every descriptor. "
-      "asyncio.Lock and current_task are assumed library contracts.",
+      "bounded, not proved. The resolution guarantee assumed for the re-entrant `resource.resolve(self)` is PROVED for "
+      "the repository's factory-backed descriptor (`_Resource.resolve` / `call` / `_resolve_dependencies`, with "
+      "signature inspection `get_dependencies`, the user factory and the composite re-entrant `get()` as named "
+      "assumptions) and stays assumed for `_ResourceConfig.resolve` (reads a file, has no manager in reach) and for "
+      "user-written descriptor classes. asyncio.Lock and current_task are assumed library contracts.",
       category="other",
       technique="contract-based deductive verification: pre/postconditions (normal and exceptional exits) on the real "
                 "`_get`, `set`, `_resolution_lock` and on mechanically extracted sections (pyvc + z3, ghost call log "
@@ -473,3 +475,22 @@ claim("C29",
       technique="bounded stand-in for contract verification: run-time checked contract (the property's own "
                 "postcondition) on the real async generators over an exhaustive enumeration of arrival schedules under "
                 "a virtual event-loop clock; a deductive proof is out of pyvc's reach (generators, tasks)")
+
+claim("C33",
+      "BOUNDED stand-in, nothing is proved: create_backup_archive / read_backup_archive are tarfile + gzip + PyYAML + "
+      "json + AES-GCM code (library semantics pyvc has no encoding for; `cryptography` is not installed here). The "
+      "statement is evaluated as a run-time checked contract on the real archive.py (loaded from the file on every "
+      "run, encryption.py replaced by a stand-in with the assumed contract of an authenticated cipher) over an "
+      "enumerated family of archives: reading what was created returns the same deployment resources, secrets and "
+      "generations under the same names, in order, with a manifest that says what was asked for, with and without a "
+      "password; and whenever a password is given every secret is routed through encrypt - no secret is stored in "
+      "plaintext or readable with another / no password (fix 311cab1: with an empty password the archive said "
+      "'encrypted' and stored plaintext).",
+      "The cipher itself (PBKDF2 + AES-GCM in encryption.py: decrypt(encrypt(p, pw), pw) == p, wrong password "
+      "raises) is ASSUMED and never executed here; everything outside the enumeration (more than 2 / 3 deployments, "
+      "other resource shapes, other secret values) is not covered; no seeded changes were written for this property.",
+      category="exploration",
+      technique="bounded stand-in for contract verification: run-time checked contract (the property's own "
+                "postcondition) on the real archive functions over an exhaustive enumeration of small backups, with the "
+                "cipher module replaced by a stand-in that has its assumed contract; a deductive proof is out of "
+                "pyvc's reach (tarfile / yaml / cryptography semantics)")
